@@ -2772,9 +2772,13 @@ pub(crate) mod convert {
                     read::AttributeValue::Sdata(val) => val,
                     _ => return Err(ConvertError::InvalidAttributeValue),
                 };
-                // TODO: should we limit which names this is supported for?
-                // For example, if it occurred for DW_AT_decl_file then we
-                // wouldn't correct convert the file index.
+                // File indices must be converted because the files in the
+                // converted line program may be numbered differently.
+                if let read::AttributeValue::FileIndex(val) = attr.value() {
+                    return Ok(AttributeValue::FileIndex(
+                        self.convert_file_index(read_unit, val)?,
+                    ));
+                }
                 return Ok(AttributeValue::ImplicitConst(implicit_const_value));
             }
             Ok(match attr.value() {
